@@ -117,7 +117,12 @@ fn static_view(k: i64) -> String {
         4 => view! { <title>"</title><script>alert(1)</script>"</title> }.to_html(),
         5 => view! { <div style="color:red;\"onmouseover=alert(1)">"&lt;&amp;&#60;"</div> }.to_html(),
         6 => view! { <input value="a\"b<c>&d" placeholder="'x'"/> }.to_html(),
-        _ => view! { <section><div id="`=`">"`<`"</div><br/><span>"\u{0}\u{2028}\u{1F600}"</span></section> }.to_html(),
+        7 => view! { <section><div id="`=`">"`<`"</div><br/><span>"\u{0}\u{2028}\u{1F600}"</span></section> }.to_html(),
+        // nested elements are inlined by the macro at compile time (the inert path)
+        8 => view! { <div><p>"</p><img src=x onerror=alert(1)>"</p><span title="\"><script>alert(1)</script>">"</span><script>alert(2)</script>"</span></div> }.to_html(),
+        9 => view! { <section><div class="a\" onclick=\"alert(1)" data-x="&quot;&amp;">"&lt;b&gt;&amp;amp;<b>x</b>"</div><textarea>"</textarea><img src=x>"</textarea></section> }.to_html(),
+        10 => view! { <div><span>"<!--"</span><span>"--><script>alert(1)</script>"</span><input value="'\"><svg onload=alert(1)>"/></div> }.to_html(),
+        _ => view! { <ul><li><a href="javascript:alert('x')\"<>">"<a href=x>"</a></li><li id="</li></ul><p>">"</li></ul>"</li></ul> }.to_html(),
     }
 }
 
